@@ -24,7 +24,8 @@ TRUSTED = ["Python dict lookup of a str key in a Term-keyed mapping is modelled 
 ASSUMPTIONS = ["term lists are duplicate-free (a list specification repeating a term is a recorded finding)"]
 
 FORMULAS = ["B:A + a", "a + A:B:a", "b:a + A", "A + B + A:B", "G:B:A", "0 + A + a:A", "a + poly(b, 2) + A", "bs(a, df=4) + B:A", "C(A, contr.sum):b + a",
-            "a:b + b:a:c", "A + G:A", "2:a + b", "c + C(G, contr.helmert) + B", "B:a + A:b + a:b", "a + b + c + a:b:c", "G + G:a", "center(a):A + B"]
+            "a:b + b:a:c", "A + G:A", "2:a + b", "c + C(G, contr.helmert) + B", "B:a + A:b + a:b", "a + b + c + a:b:c", "G + G:a", "center(a):A + B",
+            "a + np.abs(center(b)) + A:np.abs(center(b))", "np.exp(scale(a)) + b + B", "I(center(a) * 2):B + c", "poly(center(b), 2) + a"]
 
 
 def run(ctx: Ctx):
@@ -128,6 +129,16 @@ def run(ctx: Ctx):
             parent_ix = [k for row in sub.structure for k in ms.term_indices[row.term]]
             if list(sub.column_names) != [names[k] for k in parent_ix] or not np.array_equal(sarr, arr[:, parent_ix], equal_nan=True):
                 ctx.fail(f"the spec subset to {keep} does not regenerate the parent's columns {parent_ix}", rp)
+            # ... on NEW data as well: the subset carries the recorded state of everything its terms use (nested transforms included)
+            new = df.iloc[: max(3, n // 2)].copy()
+            for cnum in M.NUM:                       # values from other training rows: inside every recorded bound, another mean
+                new[cnum] = list(df[cnum].iloc[::-1][: len(new)])
+            pn = ms.get_model_matrix(new)
+            sn = sub.get_model_matrix(new)
+            pa_ = np.asarray(pn.toarray() if out == "sparse" else pn, dtype=float)
+            sa_ = np.asarray(sn.toarray() if out == "sparse" else sn, dtype=float)
+            if sa_.shape != pa_[:, parent_ix].shape or not np.allclose(sa_, pa_[:, parent_ix], rtol=1e-12, atol=1e-12, equal_nan=True):
+                ctx.fail(f"on new data the spec subset to {keep} differs from the parent's columns {parent_ix} (recorded state lost in the subset)", rp)
         except Exception as e:
             ctx.fail(f"subset to {keep}: {type(e).__name__}: {e}", rp)
         lit = "{| x_rows := %s; x_names := %s; x_term_lookups := %s; x_slices := %s; x_cols := %s; x_vars := %s |}" % (
